@@ -25,6 +25,7 @@ import (
 	"time"
 
 	"github.com/Tnze/go-mc/bot"
+	"github.com/Tnze/go-mc/chat"
 	"github.com/Tnze/go-mc/data/packetid"
 	"github.com/Tnze/go-mc/level"
 	pk "github.com/Tnze/go-mc/net/packet"
@@ -41,6 +42,11 @@ type oomSite struct {
 	name   string // census row (file:function), class C08.oom.<name>
 	bodies func(count int32) [][]byte
 	run    func(b []byte) error
+}
+
+// sites whose hostile values are not the three large counts
+var oomSiteCounts = map[string][]int32{
+	"bot/screen/screen.go:Manager.onOpenScreen": {-2, -1 << 31, -300000001, -477218589, -1431655765, 5, 6, 1<<31 - 1},
 }
 
 func oomSites() []oomSite {
@@ -94,6 +100,15 @@ func oomSites() []oomSite {
 		// a whole section: block count, states container, biomes container
 		{"level/chunk.go:Section.ReadFrom", with(pk.Short(1), pk.UnsignedByte(0), pk.VarInt(0), pk.VarInt(0), pk.UnsignedByte(3)),
 			func(b []byte) error { _, err := level.EmptyChunk(1).Sections[0].ReadFrom(reader(b)); return err }},
+		// the window type of OpenScreen sizes the chest: 9*(type+1) slots, in int32 (a wrapped product is large);
+		// LAST entry: oomCases runs the mutation families on it as well
+		{"bot/screen/screen.go:Manager.onOpenScreen",
+			func(count int32) [][]byte {
+				return [][]byte{append(append(enc(pk.VarInt(7)), varint(count)...), enc(chat.Message{Text: "t"})...)}
+			},
+			func(b []byte) error {
+				return fuzzClient().VerifC08HandlePacket(pk.Packet{ID: int32(packetid.ClientboundOpenScreen), Data: b})
+			}},
 	}
 }
 
@@ -161,12 +176,93 @@ func startOomChild() *oomChild {
 	return &oomChild{cmd, in, bufio.NewReader(outp), errb}
 }
 
+// runInChild runs site i of oomSites on b in the child process (started on demand, restarted after a
+// death).  outcome: ok, err, panic, died, hang.
+var oomC *oomChild
+
+func runInChild(i int, b []byte) (outcome string, alloc, ms int64, msg string) {
+	if oomC == nil {
+		oomC = startOomChild()
+	}
+	c := oomC
+	fmt.Fprintf(c.in, "%d %s\n", i, hx.Hex(b))
+	type ans struct {
+		line string
+		err  error
+	}
+	ch := make(chan ans, 1)
+	go func() {
+		l, err := c.out.ReadString('\n')
+		ch <- ans{l, err}
+	}()
+	select {
+	case a := <-ch:
+		if a.err != nil {
+			c.cmd.Wait()
+			msg = c.errb.String()
+			if k := strings.Index(msg, "fatal error"); k >= 0 {
+				msg = msg[k:]
+			}
+			if k := strings.IndexByte(msg, '\n'); k >= 0 {
+				msg = msg[:k]
+			}
+			oomC = nil
+			return "died", 0, 0, cut(msg, 120)
+		}
+		parts := strings.Split(strings.TrimRight(a.line, "\n"), "\t")
+		fmt.Sscanf(parts[1], "%d", &alloc)
+		fmt.Sscanf(parts[2], "%d", &ms)
+		if len(parts) > 3 {
+			msg = parts[3]
+		}
+		return parts[0], alloc, ms, msg
+	case <-time.After(20 * time.Second):
+		c.cmd.Process.Kill()
+		c.cmd.Wait()
+		oomC = nil
+		return "hang", 0, 20000, ""
+	}
+}
+
+func stopChild() {
+	if oomC != nil {
+		oomC.in.Close()
+		oomC.cmd.Wait()
+		oomC = nil
+	}
+}
+
+// judgeChild turns one child-process outcome into predicate lines; it reports whether the child died
+func judgeChild(o *hx.Out, name, what string, b []byte, outcome string, alloc, ms int64, msg string) (string, bool) {
+	switch outcome {
+	case "died":
+		o.Fail("C08.oom."+name, "%s in a body of %d bytes: the process died (%s) input=%s", what, len(b), msg, cut(hx.Hex(b), 400))
+		return outcome, true
+	case "hang":
+		o.Fail("C08.spin.oom."+name, "%s: no answer after 20 s input=%s", what, cut(hx.Hex(b), 400))
+		return outcome, true
+	case "panic":
+		o.Fail("C08.panic.oom."+name, "%s: panic=%s input=%s", what, msg, cut(hx.Hex(b), 400))
+	}
+	if alloc > oomAllocBound {
+		outcome += "+alloc"
+		o.Fail("C08.oom."+name, "%s in a body of %d bytes: the decode allocated %d MiB input=%s", what, len(b), alloc>>20, cut(hx.Hex(b), 400))
+	}
+	if ms > 5000 {
+		o.Fail("C08.spin.oom."+name, "%s: %d ms input=%s", what, ms, cut(hx.Hex(b), 400))
+	}
+	return outcome, false
+}
+
 func oomCases(o *hx.Out) {
 	sites := oomSites()
-	var c *oomChild
 	died, cases := 0, 0
 	for i, s := range sites {
-		for _, count := range oomCounts {
+		counts := oomCounts
+		if c, ok := oomSiteCounts[s.name]; ok {
+			counts = c
+		}
+		for _, count := range counts {
 			dead := 0
 			for _, b := range s.bodies(count) {
 				if len(b) > 64 {
@@ -175,63 +271,13 @@ func oomCases(o *hx.Out) {
 				if dead >= 1 {
 					continue // each death costs a process start: one per site and count is evidence enough
 				}
-				if c == nil {
-					c = startOomChild()
-				}
 				cases++
 				desc := fmt.Sprintf("oom.%s count=%d %s", s.name, count, hx.Hex(b))
-				fmt.Fprintf(c.in, "%d %s\n", i, hx.Hex(b))
-				type ans struct {
-					line string
-					err  error
-				}
-				ch := make(chan ans, 1)
-				go func(c *oomChild) {
-					l, err := c.out.ReadString('\n')
-					ch <- ans{l, err}
-				}(c)
-				outcome := ""
-				select {
-				case a := <-ch:
-					if a.err != nil {
-						c.cmd.Wait()
-						msg := c.errb.String()
-						if k := strings.Index(msg, "fatal error"); k >= 0 {
-							msg = msg[k:]
-						}
-						if k := strings.IndexByte(msg, '\n'); k >= 0 {
-							msg = msg[:k]
-						}
-						c = nil
-						dead++
-						died++
-						outcome = "died"
-						o.Fail("C08.oom."+s.name, "declared count %d in a body of %d bytes: the process died (%s) input=%s", count, len(b), cut(msg, 120), hx.Hex(b))
-					} else {
-						parts := strings.Split(strings.TrimRight(a.line, "\n"), "\t")
-						var alloc, ms int64
-						fmt.Sscanf(parts[1], "%d", &alloc)
-						fmt.Sscanf(parts[2], "%d", &ms)
-						outcome = parts[0]
-						if parts[0] == "panic" {
-							o.Fail("C08.panic.oom."+s.name, "declared count %d: panic=%s input=%s", count, parts[3], hx.Hex(b))
-						}
-						if alloc > oomAllocBound {
-							outcome += "+alloc"
-							o.Fail("C08.oom."+s.name, "declared count %d in a body of %d bytes: the decode allocated %d MiB input=%s", count, len(b), alloc>>20, hx.Hex(b))
-						}
-						if ms > 5000 {
-							o.Fail("C08.spin.oom."+s.name, "declared count %d: %d ms input=%s", count, ms, hx.Hex(b))
-						}
-					}
-				case <-time.After(20 * time.Second):
-					c.cmd.Process.Kill()
-					c.cmd.Wait()
-					c = nil
+				outcome, alloc, ms, msg := runInChild(i, b)
+				outcome, d := judgeChild(o, s.name, fmt.Sprintf("declared count %d", count), b, outcome, alloc, ms, msg)
+				if d {
 					dead++
 					died++
-					outcome = "hang"
-					o.Fail("C08.spin.oom."+s.name, "declared count %d: no answer after 20 s input=%s", count, hx.Hex(b))
 				}
 				o.Eval("oom."+s.name+"."+outcome, true, desc)
 				if os.Getenv("C08_OOM_TRACE") != "" {
@@ -240,9 +286,26 @@ func oomCases(o *hx.Out) {
 			}
 		}
 	}
-	if c != nil {
-		c.in.Close()
-		c.cmd.Wait()
+	// the OpenScreen handler on a fresh client, every mutation of the in-process streams: its window type
+	// sizes a slice (make([]Slot, 9*(type+1))), a wrapped product is gigabytes
+	si := len(sites) - 1
+	msgv := chat.Message{Text: "hi"}
+	deaths := 0
+	for _, v := range [][]byte{enc(pk.VarInt(7), pk.VarInt(2), msgv), enc(pk.VarInt(8), pk.VarInt(-2), msgv), enc(pk.VarInt(9), pk.VarInt(5), msgv)} {
+		mutationsOpt(o.R, v, 1<<31-1, 12, false, func(kind string, b []byte) {
+			if deaths >= 3 {
+				return
+			}
+			cases++
+			outcome, alloc, ms, msg := runInChild(si, b)
+			outcome, d := judgeChild(o, sites[si].name, "mutation "+kind, b, outcome, alloc, ms, msg)
+			if d {
+				deaths++
+				died++
+			}
+			o.Eval("oom."+sites[si].name+"."+kind+"."+outcome, true, "oom.openscreen "+kind+" "+hx.Hex(b))
+		})
 	}
+	stopChild()
 	o.Note("hostile declared counts in a child process (address space: start + %d MiB; allocation bound %d MiB per decode): %d cases over %d sites, %d deaths of the child", oomChildExtra>>20, oomAllocBound>>20, cases, len(sites), died)
 }
